@@ -54,7 +54,7 @@ func main() {
 		fmt.Fprintln(os.Stderr, "vtypes:", err)
 		os.Exit(2)
 	}
-	nmaps, nchans, nfiles := 0, 0, 0
+	nmaps, nchans, nfiles, ntouch := 0, 0, 0, 0
 	for _, p := range pkgs {
 		if len(p.Errors) > 0 {
 			for _, e := range p.Errors {
@@ -72,6 +72,100 @@ func main() {
 			off := func(pos token.Pos) int { return p.Fset.Position(pos).Offset }
 			var edits []edit
 			seq := 0
+			// ---- dynamic lockset: a Touch in front of every statement (of a statement list) whose own
+			// part (not its nested blocks, not function literals) operates on a map ----
+			isMap := func(e ast.Expr) bool {
+				t := p.TypesInfo.TypeOf(e)
+				if t == nil {
+					return false
+				}
+				_, ok := t.Underlying().(*types.Map)
+				return ok
+			}
+			txt := func(n ast.Node) string { return string(src[off(n.Pos()):off(n.End())]) }
+			var mapOps func(n ast.Node, acc map[string]bool)
+			mapOps = func(n ast.Node, acc map[string]bool) {
+				if n == nil {
+					return
+				}
+				ast.Inspect(n, func(c ast.Node) bool {
+					switch x := c.(type) {
+					case *ast.FuncLit, *ast.BlockStmt:
+						return false
+					case *ast.IndexExpr:
+						if isMap(x.X) {
+							acc[txt(x.X)] = true
+						}
+					case *ast.CallExpr:
+						if id, ok := x.Fun.(*ast.Ident); ok && (id.Name == "delete" || id.Name == "len") && len(x.Args) >= 1 && isMap(x.Args[0]) {
+							acc[txt(x.Args[0])] = true
+						}
+						if sel, ok := x.Fun.(*ast.SelectorExpr); ok && sel.Sel.Name == "Len" && len(x.Args) == 1 && isMap(x.Args[0]) {
+							if id, ok := sel.X.(*ast.Ident); ok && id.Name == "vsched" {
+								acc[txt(x.Args[0])] = true
+							}
+						}
+					}
+					return true
+				})
+			}
+			header := func(st ast.Stmt) map[string]bool {
+				acc := map[string]bool{}
+				switch x := st.(type) {
+				case *ast.IfStmt:
+					mapOps(x.Init, acc)
+					mapOps(x.Cond, acc)
+				case *ast.ForStmt:
+					mapOps(x.Init, acc)
+					mapOps(x.Cond, acc)
+				case *ast.RangeStmt:
+					if isMap(x.X) {
+						acc[txt(x.X)] = true
+					}
+					mapOps(x.X, acc)
+				case *ast.SwitchStmt:
+					mapOps(x.Init, acc)
+					mapOps(x.Tag, acc)
+				case *ast.TypeSwitchStmt, *ast.SelectStmt, *ast.BlockStmt, *ast.LabeledStmt, *ast.GoStmt, *ast.DeferStmt:
+				case *ast.ReturnStmt:
+					for _, r := range x.Results {
+						mapOps(r, acc)
+					}
+				default:
+					mapOps(st, acc)
+				}
+				return acc
+			}
+			ast.Inspect(f, func(n ast.Node) bool {
+				var list []ast.Stmt
+				switch x := n.(type) {
+				case *ast.BlockStmt:
+					list = x.List
+				case *ast.CaseClause:
+					list = x.Body
+				case *ast.CommClause:
+					list = x.Body
+				}
+				for _, st := range list {
+					acc := header(st)
+					if len(acc) == 0 {
+						continue
+					}
+					var keys []string
+					for k := range acc {
+						keys = append(keys, k)
+					}
+					sort.Strings(keys)
+					pos := p.Fset.Position(st.Pos())
+					var b strings.Builder
+					for _, k := range keys {
+						fmt.Fprintf(&b, "vsched.Touch(%s, %q); ", k, fmt.Sprintf("%s:%d", filepathBase(pos.Filename), pos.Line))
+						ntouch++
+					}
+					edits = append(edits, edit{off(st.Pos()), off(st.Pos()), b.String()})
+				}
+				return true
+			})
 			ast.Inspect(f, func(n ast.Node) bool {
 				// (*os.File).Read / Close anywhere in the package go through the seam
 				// (the syntactic pass only knows the field name inotifyFile)
@@ -164,7 +258,12 @@ func main() {
 				continue
 			}
 			// nested ranges: outer edits only replace the header, so offsets never overlap
-			sort.Slice(edits, func(i, j int) bool { return edits[i].pos < edits[j].pos })
+			sort.SliceStable(edits, func(i, j int) bool {
+				if edits[i].pos != edits[j].pos {
+					return edits[i].pos < edits[j].pos
+				}
+				return edits[i].end < edits[j].end // insertions before replacements starting at the same place
+			})
 			var out strings.Builder
 			at := 0
 			for _, e := range edits {
@@ -179,5 +278,12 @@ func main() {
 			}
 		}
 	}
-	fmt.Printf("vtypes: %d map ranges ordered, %d channel ranges rewritten, %d os.File calls routed through the seam\n", nmaps, nchans, nfiles)
+	fmt.Printf("vtypes: %d map ranges ordered, %d channel ranges rewritten, %d os.File calls routed through the seam, %d map-access probes\n", nmaps, nchans, nfiles, ntouch)
+}
+
+func filepathBase(p string) string {
+	if i := strings.LastIndex(p, "/"); i >= 0 {
+		return p[i+1:]
+	}
+	return p
 }
